@@ -46,6 +46,11 @@ def cases(tier, seed):
     for c in c01.cases(tier, seed):
         if c['fam'] in ('lop2', 'lop-phys'):
             out.append({'kind': 'buffer', 'c01case': c, 'cost': c['cost']})
+    # the same clause for LayoutSwapper.bufferSize (groups with transposes of their own, uneven extents), through C03's machinery
+    from checks import c03
+    for c in c03.cases(tier, seed):
+        if c['grouping'] in ('upstream3', 'upstream4') and c['mode'] == 'walk' and c['dtype'] == 'float64' and max(c['p']) >= 2 and c['shape'] in ([5, 6, 7], [13, 3, 4], [4, 5, 7, 6], [3, 4, 13, 3]):
+            out.append({'kind': 'buffer-swapper', 'c03case': c, 'cost': c['cost']})
     return out
 
 
@@ -318,6 +323,12 @@ def run_case(case):
         r = c01.run_case(case['c01case'])
         for v in r['violations']:
             v['sig'] = 'exact-bufferSize-arrays-do-not-suffice:' + v['sig']
+        return r
+    if case['kind'] == 'buffer-swapper':
+        from checks import c03
+        r = c03.run_case(case['c03case'])
+        for v in r['violations']:
+            v['sig'] = 'exact-bufferSize-arrays-do-not-suffice:swapper:' + v['sig']
         return r
     if case['kind'].startswith('direct'):
         return _direct(case)
